@@ -174,6 +174,21 @@ def basic_action(rt, chart, e, i, key, a):
   """Default handler-side action executor: only the side-effect-free query."""
   if a[0] == "is_in":
     chart.is_in(rt.fns[a[1]])
+  elif a[0] == "start_other":
+    # an action that builds and starts ANOTHER chart object of the same class (a chart that owns
+    # a helper chart): the two charts share nothing
+    spec2 = {"n": 3, "parent": [-1, 0, 1], "init": [None, None, None], "react": [{}, {}, {}], "sigs": ["VA"],
+             "entry": [True] * 3, "exit": [True] * 3, "initc": [False] * 3, "spy": bool(rt.spec.get("spy")),
+             "acts": {}}
+    saved = NAMES
+    rt2 = build(spec2, decorate=bool(rt.spec.get("spy")))
+    globals()["NAMES"] = saved
+    other = type(chart)()
+    other.start_at(rt2.fns[2])
+    if [x for x in rt2.log if x[0] in ("ENTRY", "EXIT", "INIT")] != [("ENTRY", 0), ("ENTRY", 1), ("ENTRY", 2)] or \
+       other.state_name != "vs2":
+      rt.side_failures.append("a second chart started from inside an action ran %s and rests in %s, expected "
+                              "ENTRY 0, 1, 2 and vs2" % (rt2.log, other.state_name))
 
 
 # --------------------------------------------------------------------------
@@ -181,6 +196,7 @@ def basic_action(rt, chart, e, i, key, a):
 # --------------------------------------------------------------------------
 class Runtime:
   """Holds the handlers of one built chart and everything they record.
+  (side_failures: what went wrong in things an action did on the side.)
 
   log      clause executions: ("ENTRY"|"EXIT"|"INIT", i) only when the state has that
            clause; ("SIG", i, sig, outcome) for every user-signal offer that reaches a
@@ -194,6 +210,7 @@ class Runtime:
   def __init__(self, spec, on_action=None, budget=30):
     self.spec = spec
     self.log = []
+    self.side_failures = []
     self.offers = []
     self.raw = []
     self.calls = 0
